@@ -71,6 +71,12 @@ CHECKS["C17"] = (
     "Trusts the ~300-line resolver model (visibility = declared pub; outside = neither in the member's module nor nested in it, the rule convert_qualified_names.rs documents); the model abstains (records the outcome, no verdict) wherever the statement does not fix the answer: a first segment naming both a top-level and a child module, a short name imported twice or by two mechanisms or by any `use` in another module (scope of `use`), import vs top-level function, glob re-exports, enclosing-module vs top-level namesakes, text order; acceptance is not demanded for bare names found in enclosing modules, relative paths to re-exports and relative glob paths. Four known findings (module visibility ignored, re-export of a private function, module-level let is global, top-level function shadows a module's own function) are matched by exact signature (scope=sig).",
     "DESIGN.md §3 C17",
 )
+CHECKS["C10"] = (
+    "metamorphic oracle (alpha-renaming of the binders inside macro bodies) over complete staged programs on both back ends, plus the generator's hand expansion of its own templates to tell which member of a pair is wrong",
+    "Every case is a pair of complete programs that differ only in the name of the binders inside the quoted code of their macro definitions (colliding with a name of the macro user / renamed to a fresh name); both are compiled (each on a fresh thread, so the __dtN temporaries are reproducible) and run on VM and WASM and must agree on accept/reject and every output bit per back end; templates are linear in the spliced value, so the value under lexical scoping is known and a pair that agrees on a wrong value on every back end is caught too. All tag combinations (8 binder forms x 6 positions of the splice x 2 directions x 5 name sources x 4 kinds of user entity, about 1 100) plus random argument expressions, nesting and use sites. Sampled, not exhaustive; nothing is modelled beyond the arithmetic of the templates.",
+    "Violation signatures carry the class (capturing binder form / scope relation / direction / which member is wrong); the 22 classes that fail on the unchanged tree (capture in scope, binders outliving their block, names of live __dtN temporaries) are known findings matched by exact signature, every other class must hold. Shapes kept out: match in quoted code (refused by the tree, observed as such), letrec-body splice of a user function (diverges), nested uses of a let-like macro inside if arms / blocks / lambda calls, and the shapes of the core quarantines capture-of-destructured-variable and if-inside-aggregate-literal.",
+    "DESIGN.md §3 C10",
+)
 PENDING = {}
 
 def main():
